@@ -2,6 +2,9 @@ import ICS.Driver.Common
 import ICS.Model.Provider
 import ICS.Spec.Prov
 import ICS.Spec.Epoch
+import ICS.Spec.C12
+import ICS.Spec.C15
+import ICS.Spec.Slash
 namespace ICS.Driver
 open ICS ICS.Provider ICS.Epoch
 
@@ -86,10 +89,11 @@ def parsePend (s : String) : List Packet :=
   (splitNE s ";").filterMap fun t =>
     match t.splitOn "/" with
     | [a, b] => some { id := (nat0 a), updates := parseUpd b "+" }
+    | [a, b, c] => some { id := (nat0 a), updates := parseUpd b "+", acks := (splitNE c "+").map nat0 }
     | _ => none
 
 def renderPend (l : List Packet) : String :=
-  ";".intercalate (l.map fun p => s!"{p.id}/{renderUpd p.updates "+"}")
+  ";".intercalate (l.map fun p => s!"{p.id}/{renderUpd p.updates "+"}/{"+".intercalate (p.acks.map toString)}")
 
 def parsePrune (s : String) : List (Time × List Nat) :=
   (splitNE s ",").filterMap fun t =>
@@ -170,6 +174,7 @@ structure ProvImpl where
   revs  : Fields := []        -- chain id ↦ revision (environment fact printed by the harness)
   conns : Fields := []        -- connection id ↦ "client|chain|height"
   chans : Fields := []        -- channel id ↦ connection hops
+  envs  : Fields := []        -- other environment facts (throttle parameters)
   unb   : Int := 0
   maxVals : Nat := 100
 
@@ -189,6 +194,7 @@ def ProvImpl.absorb (p : ProvImpl) (obs : List Line) : ProvImpl :=
     else if l.name == "env" then
       { p with revs := p.revs.setAll (l.kv.filterMap fun kv => if kv.1.startsWith "rev." then some ((kv.1.drop 4).toString, kv.2) else none),
                conns := p.conns.setAll (l.kv.filterMap fun kv => if kv.1.startsWith "conn." then some ((kv.1.drop 5).toString, kv.2) else none),
+               envs := p.envs.setAll (l.kv.filter fun kv => !kv.1.startsWith "rev." && !kv.1.startsWith "conn." && !kv.1.startsWith "chan."),
                chans := p.chans.setAll (l.kv.filterMap fun kv => if kv.1.startsWith "chan." then some ((kv.1.drop 5).toString, kv.2) else none) }
     else p) p
 
@@ -252,6 +258,7 @@ def parseInfrArgs (l : Line) : Option Infr :=
 
 structure ProvDrv where
   impl : ProvImpl := {}
+  engine : List ValSet.Val := []      -- the consensus engine's view: all returned updates folded
 
 def launchEnvOf (impl : ProvImpl) (s : State) (c : CId) : LaunchEnv :=
   let x := s.get c
@@ -313,6 +320,15 @@ def stepProvCore (d : ProvDrv) (a : Acc) (s : Step) : ProvDrv × Acc :=
     let st2 := beginBlockRemove st1
     let st3 := beginBlockInfraction st2
     let a := a.cmp s.lineNo "begin.res" "ok" res
+    -- BeginBlockCIS: slash meter replenishment (total power as staking reports it at this moment)
+    let thr : Throttle := { meter := int0 (before.g.get "meter"), candidate := int0 (before.g.get "cand"),
+                            period := int0 (before.envs.get "period"), fracScaled := nat0 (before.envs.get "fracscaled") }
+    let thr' := checkReplenish thr st.now (allowance thr (totalPower st))
+    let a := a.cmp s.lineNo "begin.meter" (toString thr'.meter) (after.g.get "meter")
+    let a := a.cmp s.lineNo "begin.cand" (toString thr'.candidate) (after.g.get "cand")
+    let a := if thr'.meter != thr.meter then a.tag "meter-replenished" else a
+    let thrA : Throttle := { thr with meter := int0 (after.g.get "meter"), candidate := int0 (after.g.get "cand") }
+    let a := a.spec s.lineNo "C09.begin-block-meter" (Spec.Slash.beginBlockMeter thr thrA st.now (allowance thr (totalPower st)))
     let launched := st3.consumers.filter fun x => x.phase == .launched && (st.get x.id).phase != .launched
     let a := if launched.isEmpty then a else (a.tag "launch-ok")
     let a := if (st3.consumers.filter fun x => x.phase == .deleted && (st.get x.id).phase != .deleted).isEmpty then a else a.tag "deleted"
@@ -350,6 +366,43 @@ def stepProvCore (d : ProvDrv) (a : Acc) (s : Step) : ProvDrv × Acc :=
       let st' := afterValidatorRemoved st (s.op.nat "v")
       let a := (a.tag "rmval-ok").cmp s.lineNo "rmval.res" "ok" res
       ({ impl := after }, compareState a s.lineNo st' after lifecycleFields lifecycleGlobals)
+  | "recvslash" =>
+    let thr : Throttle := { meter := int0 (before.g.get "meter"), candidate := int0 (before.g.get "cand"),
+                            period := int0 (before.envs.get "period"), fracScaled := nat0 (before.envs.get "fracscaled") }
+    let inf := match s.op.get "inf" with | "dt" => 2 | "ds" => 1 | _ => 0
+    let p : SlashPkt := { key := s.op.nat "key", power := s.op.nat "power", vscId := s.op.nat "vsc", infraction := inf }
+    let r := onRecvSlash st thr (parsePairs (before.g.get "vsc2h")) (s.op.get "ch") p
+    let ack := (s.ob "r").get "ack"
+    let ackM := match r.2.2.2 with
+      | .panic => "panic" | .error => "error" | .v1 => "res1" | .handled => "res2" | .bounced => "res3"
+    let a := a.tag ("slash-" ++ ackM)
+    if ackM == "panic" then ({ impl := after }, a.cmp s.lineNo "recvslash.res" "panic" res)
+    else
+      let a := a.cmp s.lineNo "recvslash.ack" ackM ack
+      let effM := "|".intercalate (r.2.2.1.map fun e => match e with
+        | .slash v h pw fr => s!"slash_v={v}_h={h}_power={pw}_frac={fr}_inf=2"
+        | .jail v => s!"jail_v={v}"
+        | .jailUntil v t => s!"jailuntil_v={v}_t={t}")
+      let a := a.cmp s.lineNo "recvslash.effects" effM ((s.ob "r").get "effects")
+      let a := a.cmp s.lineNo "recvslash.meter" (toString r.2.1.meter) (after.g.get "meter")
+      let a := if !r.2.2.1.isEmpty then { (a.tag "slash-jailed") with nontrivial := a.nontrivial + 1 } else a
+      let a := after.cs.foldl (fun a e => a.cmp s.lineNo s!"c{e.1}.acks" (fmtNatList (r.1.get e.1).acks) (e.2.get "acks")) a
+      -- Spec.Slash on the IMPLEMENTATION's observations
+      let implEff : List StkEffect := (splitNE ((s.ob "r").get "effects") "|").filterMap fun t =>
+        let kv := (t.splitOn "_").map fun x => (x.splitOn "=")
+        let get := fun (k : String) => match kv.find? (fun p => p.head? == some k) with | some [_, v] => v | _ => ""
+        if t.startsWith "slash_" then some (.slash (nat0 (get "v")) (nat0 (get "h")) (nat0 (get "power")) (get "frac"))
+        else if t.startsWith "jailuntil_" then some (.jailUntil (nat0 (get "v")) (int0 (get "t")))
+        else if t.startsWith "jail_" then some (.jail (nat0 (get "v")))
+        else none
+      let dl : Spec.Slash.Delivery := {
+        before := st, after := after.toState, meterB := thr.meter, meterA := int0 (after.g.get "meter"),
+        vsc2h := parsePairs (before.g.get "vsc2h"), chan := s.op.get "ch", pkt := p, ack := ack, effects := implEff }
+      let a := a.spec s.lineNo "C08.jail-iff" (Spec.Slash.jailIff dl) s!"effects={(s.ob "r").get "effects"}"
+      let a := a.spec s.lineNo "C08.double-sign-noop" (Spec.Slash.doubleSignNoop dl)
+      let a := a.spec s.lineNo "C08.ack-cases" (Spec.Slash.ackCases dl)
+      let a := a.spec s.lineNo "C09.meter-rule" (Spec.Slash.meterRule dl)
+      ({ impl := after }, compareState a s.lineNo r.1 after lifecycleFields lifecycleGlobals)
   | "chantry" | "chaninit" =>
     let connOf := fun (h : String) =>
       match (before.conns.get h).splitOn "|" with
@@ -459,11 +512,29 @@ def stepProv (d : ProvDrv) (a : Acc) (s : Step) : ProvDrv × Acc :=
   let before := d.impl.absorb (s.obs.filter (·.name == "env"))
   let r := stepProvCore d a s
   let ok := (s.ob "r").get "res" == "ok"
-  if s.op.name == "init" then r
+  if s.op.name == "init" then
+    ({ r.1 with engine := (parseCVals (r.1.impl.g.get "lastprov")).map fun c => { key := c.key, power := c.power } }, r.2)
   else
     let b := before.toState
     let t := r.1.impl.toState
     let a := provInvariants r.2 s.lineNo s.op ok b t
-    (r.1, if ok then epochSpecs a s.lineNo s.op b t r.1.impl else a)
+    let a := if ok then epochSpecs a s.lineNo s.op b t r.1.impl else a
+    -- C12 / C15 at provider EndBlock
+    if s.op.name == "end" && ok then
+      let o := s.ob "r"
+      let engine := (ValSet.applyCC d.engine (parseUpd (o.get "valupd") ",")).1
+      let stored := parseCVals (r.1.impl.g.get "lastprov")
+      let a := a.spec s.lineNo "C15.stored-is-top-M" (Spec.C15.storedIsTopM b.bonded b.stk b.m stored)
+      let a := a.spec s.lineNo "C15.size" (Spec.C15.sizeOK b.m stored)
+      let a := a.spec s.lineNo "C15.engine-equals-stored" (Spec.C15.engineEqualsStored engine stored)
+        s!"engine={fmtPairs (engine.map fun v => (v.key, v.power))} stored={renderCVals stored}"
+      let a := a.spec s.lineNo "C15.views" (Spec.C15.viewsOK b.bonded b.stk b.m (parseNatList (o.get "viter"))
+        (nat0 (o.get "vtotal")) (nat0 (o.get "supply")) (o.get "vratio"))
+      let a := a.spec s.lineNo "C12.end-block-ids" (Spec.C12.endBlockIds b.height b.epoch b.vscId t.vscId
+        (parsePairs (before.g.get "vsc2h")) (parsePairs (r.1.impl.g.get "vsc2h")))
+      let a := a.spec s.lineNo "C12.map-monotone" (Spec.C12.mapMonotone t.vscId (parsePairs (r.1.impl.g.get "vsc2h")))
+      let a := t.consumers.foldl (fun a x => a.spec s.lineNo "C12.packet-ids" (Spec.C12.packetIdsOK t.vscId x.pend)) a
+      ({ r.1 with engine := engine }, a)
+    else ({ r.1 with engine := d.engine }, a)
 
 end ICS.Driver
